@@ -31,6 +31,18 @@ def harvest(dprog):
             text = text.replace("!_cbor_enable_assert || ", "")
             b = c.block
             atom = dict(kind="other", text=text, line=c.line)
+            entry = False
+            if len(b.preds) == 1:
+                tb = b.preds[0]
+                # the assertion starts at the block that tests _cbor_enable_assert (short-circuit ||)
+                start = tb
+                if len(tb.preds) == 1:
+                    p0 = tb.preds[0]
+                    c0 = p0.term.operands[0] if p0.term.op == "br" and len(p0.succs) == 2 else None
+                    c0 = strip_casts(c0, ("trunc", "zext")) if c0 is not None else None
+                    if isinstance(c0, Inst) and c0.op == "load" and isinstance(strip_casts(c0.operands[0]), GlobalRef):
+                        start = p0
+                entry = all(f.dominates_block(start, r.block) for r in f.returns())
             if len(b.preds) == 1:
                 p = b.preds[0]
                 t = p.term
@@ -42,6 +54,7 @@ def harvest(dprog):
                         a["text"] = text
                         a["line"] = c.line
                         atom = a
+            atom["entry"] = entry
             atoms.append(atom)
         if atoms:
             out[f.name] = atoms
@@ -374,7 +387,7 @@ class ItemFacts:
             root, steps = path
             if assume_pre and root[0] == "arg" and not steps:
                 for a in self.preconds.get(f.name, []):
-                    if a.get("param") == root[1]:
+                    if a.get("param") == root[1] and a.get("entry", True):
                         ap = self.PA.atom_points(a)
                         if ap is not None:
                             pts &= ap
@@ -397,3 +410,229 @@ class ItemFacts:
 
     def types_possible(self, f, block, path):
         return sorted({p[0] for p in self.possible(f, block, path)})
+
+
+# ---------------------------------------------------------------------------
+# call-site obligations over path traces
+
+CHUNK_TABLES = {"cbor_bytestring_chunks_handle": "CBOR_TYPE_BYTESTRING", "cbor_string_chunks_handle": "CBOR_TYPE_STRING"}
+
+
+class CallSites:
+    """At every library-internal call of a function that carries harvested
+    CBOR_ASSERT preconditions, the precondition must be established on the path:
+    by earlier predicate/switch tests on the same item term, by the caller's own
+    (assumed) precondition, by what the constructor of a fresh item stored, or
+    by a named shape invariant."""
+
+    def __init__(self, prog, eff, cache, H, PA):
+        self.prog, self.eff, self.cache, self.H, self.PA = prog, eff, cache, H, PA
+        self.off = PA.off
+        self._est = {}
+        self._inherit = {}
+        self.T = prog.enum("cbor_type")
+
+    # what a constructor / builder establishes about the item it returns
+    def established(self, fname):
+        if fname in self._est:
+            return self._est[fname]
+        self._est[fname] = None
+        f = self.prog.funcs.get(fname)
+        if f is None or not f.ret_type.endswith("cbor_item_t*"):
+            return None
+        import paths as P
+        inl = {n for n in self.prog.funcs if n.startswith(("cbor_new_", "cbor_mark_", "cbor_set_", "cbor_build_")) or n in ("cbor_bytestring_set_handle",)}
+        inl.discard(fname)
+        try:
+            ps = P.Executor(self.prog, self.eff, inline=inl, max_paths=400).run(fname)
+        except Exception:
+            return None
+        pts_all = set()
+        any_ok = False
+        for pa in ps:
+            r = pa.ret
+            if r is None or r == ("c", 0) or not isinstance(r, tuple):
+                continue
+            if not pa.st.is_defined(P.mkptr(r, self.off["type"]), 4):
+                return None
+            ty = pa.st.load(P.mkptr(r, self.off["type"]), "i32", None)
+            if not P.is_const(ty):
+                return None
+            any_ok = True
+            t = ty[1]
+            cand = [p for p in DOMAIN if p[0] == t]
+            for (mt, moff), atom in self.PA.meta_atoms.items():
+                if mt != t:
+                    continue
+                ptr = P.mkptr(r, moff)
+                if pa.st.is_defined(ptr, 4):
+                    v = pa.st.load(ptr, "i32", None)
+                    if P.is_const(v):
+                        cand = [p for p in cand if p[atom] == v[1]]
+            pts_all |= set(cand)
+        res = pts_all if any_ok else None
+        self._est[fname] = res
+        return res
+
+    def pts_for(self, f, pa, e, x, depth=0):
+        """domain points the item term x may denote at call event e"""
+        import paths as P
+        PA = self.PA
+        pts = set(DOMAIN)
+        alias = {}
+        for ev in pa.events:
+            if ev.kind == "call" and ev.callee in ("cbor_move", "cbor_incref"):
+                alias[ev.res] = alias.get(ev.args[0], ev.args[0])
+        x = alias.get(x, x)
+        # own parameter: assumed preconditions, or inherited from call sites for assert-less internal helpers
+        if isinstance(x, tuple) and x[0] == "arg":
+            atoms = [a for a in self.H.get(f.name, []) if a.get("param") == x[1] and a.get("entry", True)]
+            if atoms:
+                for a in atoms:
+                    ap = PA.atom_points(a)
+                    if ap is not None:
+                        pts &= ap
+            elif f.internal and depth < 3:
+                inh = self.inherited(f, x[1], depth)
+                if inh is not None:
+                    pts &= inh
+        # named invariant (justified by C11.shape): a copy has the type, width and flavour of its source
+        if isinstance(x, tuple) and x[0] == "call" and x[1] == "cbor_copy" and depth < 3:
+            ce = [ev for ev in pa.events if ev.kind == "call" and ev.res == x]
+            if ce:
+                pts &= self.pts_for(f, pa, ce[0], ce[0].args[0], depth + 1)
+        # fresh item
+        if isinstance(x, tuple) and x[0] == "call" and x[1] in self.prog.funcs:
+            est = self.established(x[1])
+            if est is not None:
+                pts &= est
+        # shape invariant: a chunk of an indefinite (byte)string is a definite (byte)string
+        if isinstance(x, tuple) and x[0] == "ld" and isinstance(x[1], tuple) and x[1][0] == "idx":
+            tab = x[1][1]
+            if tab[0] == "call" and tab[1] in CHUNK_TABLES:
+                t = self.T[CHUNK_TABLES[tab[1]]]
+                pts &= {p for p in DOMAIN if p[0] == t and p[3] == 0}
+        # facts on the path so far
+        call_of = {ev.res: ev for ev in pa.events if ev.kind == "call"}
+        for (t, truth, _) in pa.facts[:e.nfacts]:
+            pts &= self._fact_points(t, truth, x, call_of, alias)
+        return pts
+
+    def _fact_points(self, t, truth, x, call_of, alias):
+        PA = self.PA
+        full = set(DOMAIN)
+
+        def subject(term):
+            """(table {pt: set(values)}) if term is a test of x, else None"""
+            u = term
+            while isinstance(u, tuple) and u[0] == "cast":
+                u = u[3]
+            if isinstance(u, tuple) and u[0] == "call" and u in call_of:
+                ev = call_of[u]
+                if len(ev.args) == 1 and alias.get(ev.args[0], ev.args[0]) == x and PA.is_simple(ev.callee):
+                    g = self.prog.funcs[ev.callee]
+                    if not g.back_edges():
+                        return PA.table(ev.callee)
+            if isinstance(u, tuple) and u[0] == "ld" and alias.get(u[1], u[1]) == x:
+                o = u[2]
+                tab = {}
+                for pt in DOMAIN:
+                    if o == self.off["type"]:
+                        tab[pt] = frozenset([pt[0]])
+                    else:
+                        a = PA.meta_atoms.get((pt[0], o))
+                        tab[pt] = frozenset([pt[a]]) if a is not None else frozenset([UNKNOWN])
+                return tab
+            return None
+        if t[0] in ("in", "notin"):
+            tab = subject(t[1])
+            if tab is None:
+                return full
+            vals = set(t[2])
+            if t[0] == "in":
+                return {pt for pt, r in tab.items() if UNKNOWN in r or (r & vals)}
+            return {pt for pt, r in tab.items() if UNKNOWN in r or (r - vals)}
+        if t[0] == "icmp" and t[1] == "eq" and isinstance(t[3], tuple) and t[3][0] == "c":
+            tab = subject(t[2])
+            if tab is None:
+                return full
+            c = t[3][1]
+            if truth:
+                return {pt for pt, r in tab.items() if UNKNOWN in r or c in r}
+            return {pt for pt, r in tab.items() if UNKNOWN in r or (r - {c})}
+        tab = subject(t)
+        if tab is None:
+            return full
+        if truth:
+            return {pt for pt, r in tab.items() if UNKNOWN in r or any(v not in (0, UNKNOWN) for v in r)}
+        return {pt for pt, r in tab.items() if UNKNOWN in r or 0 in r}
+
+    def inherited(self, f, pi, depth):
+        key = (f.name, pi)
+        if key in self._inherit:
+            return self._inherit[key]
+        self._inherit[key] = None
+        acc = set()
+        found = False
+        for g in self.prog.lib_funcs():
+            if not any(True for _ in g.calls(f.name)):
+                continue
+            for pa in self.cache.get(g.name):
+                for e in pa.events:
+                    if e.kind == "call" and e.callee == f.name and pi < len(e.args):
+                        found = True
+                        acc |= self.pts_for(g, pa, e, e.args[pi], depth + 1)
+        res = acc if found else None
+        self._inherit[key] = res
+        return res
+
+    def check(self, fnames=None):
+        """yields (fn, callee, atom, ok, where, detail, path) for every internal call site x precondition atom"""
+        seen = {}
+        for f in (self.prog.lib_funcs() if fnames is None else [self.prog.fn(n) for n in fnames]):
+            for pa in self.cache.get(f.name):
+                for e in pa.events:
+                    if e.kind != "call" or e.ckind != "lib" or e.callee not in self.H:
+                        continue
+                    for ai, a in enumerate(self.H[e.callee]):
+                        if a["kind"] == "other" or a.get("param") is None or a["param"] >= len(e.args) or not a.get("entry", True):
+                            continue
+                        want = self.PA.atom_points(a)
+                        if want is None:
+                            continue
+                        x = e.args[a["param"]]
+                        # the very same test is known on this path
+                        direct = False
+                        if a["kind"] == "pred":
+                            for ev in pa.events:
+                                if ev is e:
+                                    break
+                                if ev.kind == "call" and ev.callee == a["pred"] and ev.args and ev.args[0] == x and \
+                                        _truth_of(pa, ev.res, e.nfacts) is a["want"]:
+                                    direct = True
+                        # an exported function forwards the obligation on its own parameter to its client
+                        forwarded = (isinstance(x, tuple) and x[0] == "arg" and not f.internal and
+                                     not [b for b in self.H.get(f.name, []) if b.get("param") == x[1] and b.get("entry", True)])
+                        pts = self.pts_for(f, pa, e, x)
+                        ok = direct or forwarded or pts <= want
+                        key = (f.name, e.ins.id, ai)
+                        if key in seen and (seen[key][3] is False or ok):
+                            continue
+                        detail = ""
+                        if not ok:
+                            bad = sorted({self.PA.relevant(p) for p in pts - want})[:3]
+                            tn = {v: k for k, v in self.T.items()}
+                            detail = "%s requires %s; here the item may be %s" % (
+                                e.callee, a.get("text", ""), ", ".join("%s(int width %d, float width %d, flavour %d)" % (tn.get(b[0], b[0]), b[1], b[2], b[3]) for b in bad))
+                        seen[key] = (f.name, e.callee, a, ok, e.ins.loc(), detail, pa)
+        return list(seen.values())
+
+
+def _truth_of(pa, r, upto):
+    for t, truth, _ in pa.facts[:upto]:
+        x = t
+        while isinstance(x, tuple) and x[0] == "cast":
+            x = x[3]
+        if x == r:
+            return truth
+    return None
